@@ -15,6 +15,10 @@
 (*   Pairs    : (hostile call, benign call) in both orders for every entry point x every partner entry point  *)
 (*              of the same object (quick: one partner per kind of store), hostile x hostile for the same     *)
 (*              entry point (thorough: for every two entry points).                                           *)
+(*   Dups     : every specially stored field (Content-Length, Transfer-Encoding, Host, Server, Date,           *)
+(*              Content-Type, User-Agent, Content-Encoding, Connection) set through each generic entry point   *)
+(*              and through each dedicated setter (incl. SetContentLength(n), SetConnectionClose), every       *)
+(*              ordered pair of such calls on the same field, with and without a body stream.                  *)
 (* rawsink = "reqcookie" marks programs that route a CR/LF-bearing argument into the request cookie store    *)
 (* (known finding C05-reqcookie-raw; computed here so that the signature is part of the case).                *)
 EXTENDS HeaderWrite, Json, IOUtils, SequencesExt
@@ -25,7 +29,7 @@ Roles(e) == EntryTable[e].roles
 \* SubSeq(f, 1, n) turns the function into a plain tuple (cheap to compare and to serialise)
 Tup(f) == SubSeq(f, 1, Len(f))
 Alpha(r) == IF r = "n" THEN AlphaN ELSE AlphaV
-Benign(r) == IF r = "n" THEN <<LetterN>> ELSE <<LetterV>>
+Benign(r) == CASE r = "n" -> <<LetterN>> [] r = "d" -> <<51>> [] OTHER -> <<LetterV>>
 BenignArgs(e) == Tup([i \in DOMAIN Roles(e) |-> Benign(Roles(e)[i])])
 WithArg(e, s, x) == [e |-> e, a |-> Tup([i \in DOMAIN Roles(e) |-> IF i = s THEN x ELSE Benign(Roles(e)[i])])]
 BenignCall(e) == [e |-> e, a |-> BenignArgs(e)]
@@ -83,6 +87,45 @@ PairsHB(tgt) == {<<h, b>> : h \in HostileCalls(tgt), b \in BenignCalls(tgt)}
 PairsBH(tgt) == {<<b, h>> : h \in HostileCalls(tgt), b \in BenignCalls(tgt)}
 PairsHH(tgt) == {hg \in HostileCalls(tgt) \X HostileCalls(tgt) : PairAll \/ hg[1].e = hg[2].e}
 
+\* ---- Dups: a specially stored field set through the generic API and through its dedicated setter, in both
+\* orders (and generic x generic, dedicated x dedicated), with realistic values; serialised with and without a
+\* body stream.  What must hold is SingleValuedOK: the field appears once.
+B5 == <<53>>
+BChunkedV == <<99, 104, 117, 110, 107, 101, 100>>
+GenericOf(tgt) == {e \in KVEntries \ RawKV : EntryTable[e].tgt = tgt}
+DupNV(tgt) == {<<NContentLength, B5>>, <<NTransferEncoding, BChunkedV>>, <<NContentType, <<LetterV>>>>,
+               <<NConnection, BClose>>, <<NConnection, BKeepAlive>>}
+              \cup (IF tgt = "req" THEN {<<NHost, <<LetterV>>>>, <<NUserAgent, <<LetterV>>>>}
+                    ELSE {<<NServer, <<LetterV>>>>, <<NDate, <<LetterV>>>>, <<NContentEncoding, <<LetterV>>>>})
+Dedicated(tgt) ==
+    CASE tgt = "req" ->
+           {[e |-> "ReqHeader.SetContentLength", a |-> <<x>>] : x \in {<<51>>, <<45, 49>>}}
+           \cup {[e |-> e, a |-> << <<LetterV, LetterV>> >>] : e \in {"ReqHeader.SetContentLengthBytes", "ReqHeader.SetHost",
+                    "ReqHeader.SetHostBytes", "Request.SetHost", "ReqHeader.SetContentTypeBytes",
+                    "ReqHeader.SetMultipartFormBoundary", "ReqHeader.SetUserAgentBytes"}}
+           \cup {[e |-> e, a |-> << >>] : e \in {"ReqHeader.SetConnectionClose", "Request.SetConnectionClose"}}
+      [] tgt = "resp" ->
+           {[e |-> "RespHeader.SetContentLength", a |-> <<x>>] : x \in {<<51>>, <<45, 49>>}}
+           \cup {[e |-> e, a |-> << <<LetterV, LetterV>> >>] : e \in {"RespHeader.SetContentLengthBytes", "RespHeader.SetServerBytes",
+                    "RespHeader.SetContentType", "RespHeader.SetContentTypeBytes", "RespHeader.SetContentEncoding",
+                    "RespHeader.SetContentEncodingBytes"}}
+           \cup {[e |-> e, a |-> << >>] : e \in {"RespHeader.SetConnectionClose", "Response.SetConnectionClose"}}
+      [] OTHER ->
+           {[e |-> e, a |-> << <<LetterV, LetterV>> >>] : e \in {"Ctx.SetContentType", "Ctx.SetContentTypeBytes", "Ctx.Data"}}
+           \cup {[e |-> "Ctx.SetConnectionClose", a |-> << >>]}
+DupCalls(tgt) == {[e |-> e, a |-> <<nv[1], nv[2]>>] : e \in GenericOf(tgt), nv \in DupNV(tgt)} \cup Dedicated(tgt)
+\* calls that concern the same single-valued field (Content-Length and Transfer-Encoding are one group: framing)
+Grp(c) == LET n == Canon(HNames(c)[1]) IN IF n = Canon(NTransferEncoding) THEN Canon(NContentLength) ELSE n
+DupPairs(tgt) == {cd \in DupCalls(tgt) \X DupCalls(tgt) : Grp(cd[1]) = Grp(cd[2])}
+
+\* connconflict = "yes": a generic call stores `Connection: keep-alive` and a LATER call asks for close (dedicated
+\* setter, or generic `Connection: close`): known finding C05-connection-keepalive-and-close.
+NonRawKV(c) == IsKV(c) /\ c.e \notin RawKV
+StoresKeepAlive(c) == NonRawKV(c) /\ c.a[1] = NConnection /\ c.a[2] = BKeepAlive
+SetsClose(c) == \/ NonRawKV(c) /\ c.a[1] = NConnection /\ c.a[2] = BClose
+                \/ (EntryTable[c.e].cls = "fixed" /\ EntryTable[c.e].fx = NConnection)
+ConnConflict(calls) == IF \E i, j \in DOMAIN calls : i < j /\ StoresKeepAlive(calls[i]) /\ SetsClose(calls[j]) THEN "yes" ELSE "no"
+
 RawCookie(c) == /\ EntryTable[c.e].tgt = "req"
                 /\ \/ Cls(c) = "reqcookie" /\ \E j \in DOMAIN c.a : HasCRLF(c.a[j])
                    \/ IsKV(c) /\ c.a[1] = NCookie /\ HasCRLF(c.a[2])
@@ -92,8 +135,6 @@ RawSink(calls) == IF \E i \in DOMAIN calls : RawCookie(calls[i]) THEN "reqcookie
 \* key[0]): Trailer.Set/Add/UpdateArgBytes("", v), or a Trailer name list with an element that is empty after
 \* trimming spaces (SetTrailers, or Set/Add("Trailer", list) through setSpecialHeader).  Known finding
 \* C05-trailer-emptyname-panic.
-RawKV == {"ReqHeader.SetArgBytes", "ReqHeader.AddArgBytes", "ReqHeader.SetArgBytesNoValue", "ReqHeader.AddArgBytesNoValue",
-          "RespHeader.SetArgBytes", "RespHeader.AddArgBytes", "RespHeader.SetArgBytesNoValue", "RespHeader.AddArgBytesNoValue"}
 NoSP(s) == SelectSeq(s, LAMBDA b : b # SP)
 EmptyElem(list) == list # << >> /\ \E i \in DOMAIN Pieces(list, COMMA) : NoSP(Pieces(list, COMMA)[i]) = << >>
 EmptyTrailerName(c) == \/ Cls(c) = "trailer" /\ c.a[1] = << >>
@@ -102,7 +143,7 @@ EmptyTrailerName(c) == \/ Cls(c) = "trailer" /\ c.a[1] = << >>
 EmptyTrailer(calls) == IF \E i \in DOMAIN calls : EmptyTrailerName(calls[i]) THEN "yes" ELSE "no"
 
 Progs(S, body) == SetToSeq({[tgt |-> EntryTable[p[1].e].tgt, body |-> body, calls |-> p, rawsink |-> RawSink(p),
-                            emptytrailer |-> EmptyTrailer(p)] : p \in S})
+                            emptytrailer |-> EmptyTrailer(p), connconflict |-> ConnConflict(p)] : p \in S})
 TgtSeq == <<"req", "resp", "ctx">>
 RECURSIVE Cat(_)
 Cat(ss) == IF ss = << >> THEN << >> ELSE ss[1] \o Cat(Tail(ss))
@@ -112,14 +153,15 @@ SeqSpecials == Cat([k \in 1 .. 3 |-> Progs(SpecialsOf(TgtSeq[k]), "stream")])
 SeqPairs    == Cat([k \in 1 .. 3 |-> Progs(PairsHB(TgtSeq[k]), "stream") \o Progs(PairsBH(TgtSeq[k]), "stream")
                                       \o Progs(PairsHH(TgtSeq[k]), "stream")])
 SeqNoBody   == Progs(NoBodyOf("n"), "none") \o Progs(NoBodyOf("v"), "none")
-AllProgs == SeqSingles \o SeqSpecials \o SeqPairs \o SeqNoBody
+SeqDups     == Cat([k \in 1 .. 3 |-> Progs(DupPairs(TgtSeq[k]), "stream") \o Progs(DupPairs(TgtSeq[k]), "none")])
+AllProgs == SeqSingles \o SeqSpecials \o SeqPairs \o SeqNoBody \o SeqDups
 Cases == [i \in DOMAIN AllProgs |-> [id |-> i, tgt |-> AllProgs[i].tgt, body |-> AllProgs[i].body,
                                      calls |-> AllProgs[i].calls, rawsink |-> AllProgs[i].rawsink,
-                                     emptytrailer |-> AllProgs[i].emptytrailer]]
+                                     emptytrailer |-> AllProgs[i].emptytrailer, connconflict |-> AllProgs[i].connconflict]]
 
 ASSUME \A i \in DOMAIN AllProgs : \A j \in DOMAIN AllProgs[i].calls : WellFormedCall(AllProgs[i].calls[j])
 ASSUME ndJsonSerialize(IOEnv.VERIF_OUT, Cases)
-ASSUME PrintT(<<"@@GEN", Len(SeqSingles), Len(SeqSpecials), Len(SeqPairs), Len(SeqNoBody)>>)
+ASSUME PrintT(<<"@@GEN", Len(SeqSingles), Len(SeqSpecials), Len(SeqPairs), Len(SeqNoBody), Len(SeqDups)>>)
 
 GenInit == side = "req" /\ prog = << >> /\ store = << >> /\ tstore = << >> /\ phase = "done" /\ obs = "none" /\ out = << >>
 GenNext == UNCHANGED vars
